@@ -394,11 +394,18 @@ fn supervisor(property: &str, tier: &str) -> i32 {
                 println!("HARNESS-ERROR: the system under test crashed or hung (phase {} run {}); that is a C03 matter and {} cannot be judged past it", phase, run, property);
                 return 2;
             }
-            let check_id = format!("{}.abort", property.to_lowercase());
+            let abort_id = format!("{}.abort", property.to_lowercase());
             let ph = spec.phases.iter().find(|p| p.name() == phase).map(|p| p.as_ref());
             let fails = |s: &Scenario| replay_contained(property, s);
             let cands = |s: &Scenario| ph.map(|p| p.shrink_candidates(s)).unwrap_or_default();
-            let msg = format!("process {} while executing this scenario (stack overflow, abort or hang inside the library)", what);
+            // what does the culprit do on its own, with ten minutes instead of the watchdog's seconds? It may
+            // crash or hang again (an abort), end with an ordinary judged violation that merely took long
+            // (reported as that violation), or pass (a stall of the machine: handled below)
+            let (check_id, msg) = match fails(&sc) {
+                Some((id, _)) if id == abort_id => (abort_id.clone(), format!("process {} while executing this scenario (stack overflow, abort or hang inside the library)", what)),
+                Some((id, m)) => { println!("the run the watchdog stopped ends with a judged violation when given more time"); (id, m) }
+                None => continue,
+            };
             let out = shrink(sc, &check_id, msg, &cands, &fails, if end.timed_out || hung { 12 } else { 300 });
             let j = report::replay_json(property, &check_id, seed, tier, &phase, run, &out.scenario, &out.message, out.from_size, out.executions);
             let path = match report::write_replay(&j) { Ok(p) => p, Err(e) => { println!("HARNESS-ERROR: {}", e); return 2; } };
